@@ -126,6 +126,13 @@ def release_returns_owner(ctx, db, rid):
     if n < 2:
         raise Broken('hand-over functors of ownership::release / ownership_deleter not found')
     for f in db.need('cocls::mutex::ownership::release')[:1]:
-        rets = [e for e in f.events() if e.k == 'return']
-        ok = bool(rets) and all(re.fullmatch(r'(ctor\()?(move\()?local:\w+\)*', r.get('path') or '') for r in rets)
+        ok = True
+        trs_ = [t for t in htracer(db).traces(f) if live(t)]
+        for tr in trs_:
+            unl = any(c.k == 'call' and norm(c.get('callee')) == 'cocls::mutex::unlock' for c in tr)
+            rp = ret_expr(tr) or ''
+            # where the mutex was unlocked the filled suspend point is what is returned; the already-released edge may answer with an empty one
+            if not (re.fullmatch(r'(ctor\()?(move\()?local:\w+(#\d+)?\)*', rp) or (not unl and rp in ('ctor()', '{}', ''))):
+                ok = False
+        ok = ok and bool(trs_)
         ctx.ob(rid, f, f['key'], ok, 'release() returns the suspend point the functor filled', desc='release() does not return the filled suspend point')
